@@ -77,6 +77,19 @@ type l1World struct {
 
 var simEpoch = time.Date(2026, 1, 1, 0, 0, 0, 0, time.UTC)
 
+// epochShift places a chain's clock in another era for some runs (clock skew
+// between the chains and between simulated time and the host's wall clock:
+// behaviour that secretly reads the wall clock changes with it).
+func epochShift(r *core.Run) time.Duration {
+	switch r.Weighted([]int{6, 1, 1}) {
+	case 1:
+		return -24 * 365 * 24 * time.Hour // the past
+	case 2:
+		return 74 * 365 * 24 * time.Hour // the future
+	}
+	return 0
+}
+
 func (w *l1World) own(owners []string) bool {
 	if w.ownAll {
 		return true
@@ -109,7 +122,7 @@ func newL1World(r *core.Run, p *l1Profile) *l1World {
 	}
 	nd := 1 + r.Intn(3)
 	w.denoms = []string{"uinit", "uusdc", "ibc/27394FB092D2ECCD56123C74F36E4C1F926001CEADA9CA97EA622B25F41E5EB2"}[:nd]
-	w.now = simEpoch.Add(time.Duration(r.Intn(1000)) * time.Millisecond)
+	w.now = simEpoch.Add(epochShift(r)).Add(time.Duration(r.Intn(1000)) * time.Millisecond)
 	bal := map[string]sdk.Coins{}
 	gov := authtypes.NewModuleAddress("gov").String()
 	w.m = newModelL1(gov, authtypes.NewModuleAddress(node.DistrModule))
